@@ -207,6 +207,9 @@ fn generate_g(seed: u64, _quick: bool) -> Value {
                 forms.insert(at, json!({"t": t, "k": "nest"}));
             }
         }
+        // some instances have no program directory: their libraries are looked up from the
+        // process's working directory (which holds libraries of its own, and which nobody moves)
+        let no_program_directory = rng.chance(1, 5);
         // some instances start empty and import the standard library themselves
         let bare_start = rng.chance(1, 4);
         if bare_start {
@@ -216,7 +219,7 @@ fn generate_g(seed: u64, _quick: bool) -> Value {
         all.extend(forms);
         progs.insert(
             who.to_string(),
-            json!({"forms": all, "armed": sub["armed"], "reg_text": reg_text, "file_text": file_text, "bare_start": bare_start}),
+            json!({"forms": all, "armed": sub["armed"], "reg_text": reg_text, "file_text": file_text, "bare_start": bare_start, "no_program_directory": no_program_directory}),
         );
     }
     // schedule: an instance is created right before its first form (A at the start); it may
@@ -354,7 +357,9 @@ fn make_instance(prog: &Value, dir: &PathBuf) -> Result<Inst, crate::hashseed::P
         library_name_of(&["sim", "nest"]),
         Box::new(|| vec![("sim-nested".to_string(), nested_procedure())]),
     ));
-    sys.it.program_directory = Some(dir.clone());
+    if !prog["no_program_directory"].as_bool().unwrap_or(false) {
+        sys.it.program_directory = Some(dir.clone());
+    }
     let reg = prog["reg_text"].as_str().unwrap_or("").to_string();
     let name = library_name_of(&["iso", "reg"]);
     let it = &mut sys.it;
@@ -641,18 +646,32 @@ fn execute_g(case: &Value) -> RunResult {
         write_file_lib(&dirs[w], progs[w]["file_text"].as_str().unwrap_or(""));
         let _ = std::os::unix::fs::symlink(&shared, dirs[w].join("shared"));
     }
+    // the working directory of every run of this case: its own (iso file), its own way to
+    // the shared library. Each run starts here (the directory is the process's, so a run
+    // that moved it must not leave the next one elsewhere)
+    let cwd_dir = root.join("cwd");
+    write_file_lib(
+        &cwd_dir,
+        "(define-library (iso file) (import (scheme base)) (export iso-file-value iso-file-bumped) (begin (define (iso-file-value) 9007) (define (iso-file-bumped x) (+ x 9000))))",
+    );
+    let _ = std::os::unix::fs::symlink(&shared, cwd_dir.join("shared"));
     // solo reference runs, each on its own fresh thread
     let mut solo_results: BTreeMap<String, Vec<String>> = BTreeMap::new();
     for w in &whos {
         let p = progs[w].clone();
         let d = dirs[w].clone();
         let ix = idx.get(w).cloned().unwrap_or_default();
-        let r = match on_fresh_thread(hash_seed, move || solo(&p, &d, &ix)) {
+        let c = cwd_dir.clone();
+        let r = match on_fresh_thread(hash_seed, move || {
+            let _ = std::env::set_current_dir(&c);
+            solo(&p, &d, &ix)
+        }) {
             ThreadOutcome::Done(r) => r,
             ThreadOutcome::Panicked(p) => vec![format!("HARNESS-PANIC {}", p.message)],
         };
         solo_results.insert(w.to_string(), r);
     }
+    let _ = std::env::set_current_dir(&cwd_dir);
     let sanity_ref = match on_fresh_thread(hash_seed, sanity_run) {
         ThreadOutcome::Done(r) => r,
         ThreadOutcome::Panicked(p) => vec![format!("HARNESS-PANIC {}", p.message)],
@@ -663,6 +682,7 @@ fn execute_g(case: &Value) -> RunResult {
                 signature: format!("C19/solo-instance-creation-fails/{}", r[0]),
                 detail: json!({"program": w, "observed": r[0]}),
             });
+            let _ = std::env::set_current_dir("/");
             crate::sandbox::remove_dir(&root);
             return res;
         }
@@ -674,7 +694,9 @@ fn execute_g(case: &Value) -> RunResult {
         let dirs2 = dirs.clone();
         let solo2 = solo_results.clone();
         let sanity2 = sanity_ref.clone();
+        let cwd2 = cwd_dir.clone();
         move || {
+            let _ = std::env::set_current_dir(&cwd2);
             // every program may use what it may use alone (plus the sanity programs): the
             // budget must never be what makes an interleaved run differ
             let nprogs = progs2.as_object().map(|o| o.len()).unwrap_or(2) as u64;
@@ -717,6 +739,7 @@ fn execute_g(case: &Value) -> RunResult {
             (std::mem::take(&mut c.log), c.violation.take(), std::mem::take(&mut c.counters), steps, c.a_between_b)
         }
     });
+    let _ = std::env::set_current_dir("/");
     crate::sandbox::remove_dir(&root);
     match inter {
         ThreadOutcome::Done((log, violation, counters, steps, a_between_b)) => {
